@@ -112,6 +112,15 @@ func c10() {
 			strace = true
 			run.Count("children_with_a_transient_EINTR_on_the_first_seccomp_call", 1)
 		}
+		refusing := i%12 == 6 && variant == "" && !divergent && !transient && flags&1 != 0
+		if refusing {
+			// the kernel (as the process sees it) has no seccomp(2): every call is answered with ENOSYS (an old kernel, an
+			// outer sandbox that hides the call). An error is the right answer; a nil result with thread-sync requested is
+			// judged like any other: every thread must be filtered (a fallback through prctl(2) cannot synchronise threads)
+			cc.StraceInject = append(cc.StraceInject, "-e", "inject=seccomp:error=ENOSYS")
+			strace = true
+			run.Count("children_whose_every_seccomp_call_is_answered_with_ENOSYS", 1)
+		}
 		res, err := vlib.RunChild(bin, "tsync", cc, strace, 90*time.Second)
 		desc := fmt.Sprintf("case %d: %d threads %v spawners=%d gomaxprocs=%d flags=%#x loader_spin=%d %s", i, nthreads, tc.Threads[:min(4, nthreads)], tc.Spawners, tc.GoMaxProcs, flags, tc.LoaderSpin, variant)
 		if err != nil || res.TimedOut || res.Line("done") == nil {
@@ -140,6 +149,10 @@ func c10() {
 			}
 			if transient {
 				run.Count("transient_failure_surfaced_as_error", 1) // no nil result: nothing to judge
+				return
+			}
+			if refusing {
+				run.Count("missing_seccomp_call_surfaced_as_error", 1) // no nil result: nothing to judge
 				return
 			}
 			run.Inconclusive(fmt.Sprintf("load failed in tsync child (%s): %v", desc, l["err"]))
